@@ -74,6 +74,28 @@ def install_tokens(ctx):
                   published_at=S(mtime(tok), 'SystemTime'), data=BytesTok(mdata(tok)),
                   attributes=Enum('Option', z3.If(mattr(tok) == 0, 0, 1), {1: (AttrMapTok(mattr(tok)),)}))
     ctx.tok_kinds['TopicMessage'] = topic_message
+    I = z3.IntSort()
+    t_proj, t_id, t_iid = z3.Function('topic_proj', I, I), z3.Function('topic_id', I, I), z3.Function('topic_iid', I, I)
+    s_proj, s_id, s_iid = z3.Function('sub_proj', I, I), z3.Function('sub_id', I, I), z3.Function('sub_iid', I, I)
+    s_topic, s_topic_alive = z3.Function('sub_topic', I, I), z3.Function('sub_topic_alive', I, z3.BoolSort())
+
+    def topic(ip, tok):
+        from models_async import SenderM
+        ip.path.assume(z3.And(t_iid(tok) >= 0, t_iid(tok) < (1 << 32)))
+        return mk(ctx, 'Topic', 'topics/topic', name=mk(ctx, 'TopicName', project_id=StrTok(t_proj(tok)), topic_id=StrTok(t_id(tok))),
+                  internal_id=S(t_iid(tok), 'u32'), sender=SenderM('topic', tok))
+
+    def subscription(ip, tok):
+        from models_async import SenderM
+        ip.path.assume(z3.And(s_iid(tok) >= 0, s_iid(tok) < (1 << 32)))
+        return mk(ctx, 'Subscription', 'subscriptions/subscription',
+                  name=mk(ctx, 'SubscriptionName', project_id=StrTok(s_proj(tok)), subscription_id=StrTok(s_id(tok))),
+                  topic=WeakV(ArcTok(s_topic(tok), 'Topic'), s_topic_alive(tok)), internal_id=S(s_iid(tok), 'u32'),
+                  sender=SenderM('subscription', tok), observer=Opaque('observer'))
+    ctx.tok_kinds['Topic'] = topic
+    ctx.tok_kinds['Subscription'] = subscription
+    ctx.tok_ufs = {'topic_proj': t_proj, 'topic_id': t_id, 'topic_iid': t_iid,
+                   'sub_proj': s_proj, 'sub_id': s_id, 'sub_iid': s_iid, 'sub_topic': s_topic, 'sub_topic_alive': s_topic_alive}
 
 
 def sym_tracker(ctx, p, n_slots, name='o', now_floor=None):
